@@ -1,4 +1,5 @@
 import LsModel.DriverTxn
+import LsModel.Cleaner
 /- driver operations: the sync loop of one instance and a fleet sharing one bucket (trace level) -/
 namespace Ls.Drv
 open Ls Ls.Txn Ls.SyncLoop
@@ -21,6 +22,13 @@ def insertSortedL (x : String) : List String → List String
 
 def sortStrsL (l : List String) : List String := l.foldl (fun acc x => insertSortedL x acc) []
 
+def insertPair (x : String × Nat) : List (String × Nat) → List (String × Nat)
+  | [] => [x]
+  | y :: ys => if x.1 < y.1 ∨ (x.1 = y.1 ∧ x.2 < y.2) then x :: y :: ys else y :: insertPair x ys
+
+/-- listing order of a bucket: by instance, then by time (names carry fixed-width timestamps) -/
+def sortPairs (l : List (String × Nat)) : List (String × Nat) := l.foldl (fun acc x => insertPair x acc) []
+
 def bucketOut (b : Bucket) : String :=
   let l := sortStrsL (b.map fun x => s!"{x.inst}@{x.ts}")
   if l.isEmpty then "-" else ",".intercalate l
@@ -34,9 +42,21 @@ def parseNext (s : String) : Option (Option (InstId × Nat)) :=
   | [i, t] => do pure (some (i, ← natArg t))
   | _ => none
 
+/-- one `Worker.RunOnce` of the instance's cleaner (cleanup enabled unless receive-only, both
+    intervals zero: only the order of times matters) on a bucket -/
+def cleanRun (i : LoopInst) (b : Bucket) (now : Nat) : Cleaner.St × Cleaner.Out :=
+  let names := (sortPairs (b.map fun x => (x.inst, x.ts))).map fun p => s!"{p.1}@{p.2}"
+  let parse : Cleaner.Parse := fun n =>
+    match splitOn n '@' with
+    | [a, t] => t.toNat?.map fun k => { kind := Gen.kindSnapshot, inst := a, ts := (k : Int) }
+    | _ => none
+  let cfg := Cleaner.syncerCleanerCfg i.cfg.txn.receiveOnly { enabled := true, mustKeep := 0, removeOld := 0 }
+  let cst : Cleaner.St := { i.cl with committed := i.st.committed.map fun p => (p.1, (p.2 : Int)) }
+  Cleaner.runOnce parse cfg cst (now : Int) (some names) (fun _ => false)
+
 def opLoop (op : String) (a : List String) (st : DrvState) : Option (DrvState × String) :=
   match op, a with
-  | "fleet.reset", [] => some ({ st with loops := [], bucket := [] }, "ok")
+  | "fleet.reset", [] => some ({ st with loops := [], bucket := [], grave := [] }, "ok")
   | "loop.new", [id, native, hack, pad, ro, once, retry] => do
     let native ← boolArg native
     let hack ← boolArg hack
@@ -50,7 +70,7 @@ def opLoop (op : String) (a : List String) (st : DrvState) : Option (DrvState ×
   | "loop.restart", [id, wipe] => do
     let i ← st.getLoop id
     let env : Env := if (← boolArg wipe) then { dbis := [], lastTxn := 0 } else i.st.env
-    pure (st.setLoop id { i with st := SyncLoop.init env }, "ok")
+    pure (st.setLoop id { i with st := SyncLoop.init env, cl := Cleaner.St.init }, "ok")
   | "loop.app", [id, ops] => do
     let i ← st.getLoop id
     let ops ← (listArg ops ',').mapM parseAppOp
@@ -62,8 +82,35 @@ def opLoop (op : String) (a : List String) (st : DrvState) : Option (DrvState ×
   | "loop.go", [id, next, fails, now] => do
     let i ← st.getLoop id
     let inp : In := { next := ← parseNext next, fails := ← natArg fails, now := ← natArg now }
-    let (s', b') := SyncLoop.go i.cfg st.bucket i.st inp
-    pure ({ (st.setLoop id { i with st := s' }) with bucket := b' }, obs s' b')
+    -- a snapshot the receiver downloaded before a cleaner deleted it is still handed over
+    let ghost : Bucket := match inp.next with
+      | some (inst, ts) =>
+        if (findBlob st.bucket inst ts).isNone then (findBlob st.grave inst ts).toList else []
+      | none => []
+    let (s', b') := SyncLoop.go i.cfg (st.bucket ++ ghost) i.st inp
+    let b' := b'.filter fun x => !ghost.contains x
+    -- `syncLoop` starts the cleaner's goroutine, which runs once at once (on the bucket as it
+    -- is during the first segment: a new worker only records what it sees)
+    let cl' := if i.st.pc = .boot then (cleanRun i st.bucket inp.now).1 else i.cl
+    pure ({ (st.setLoop id { i with st := s', cl := cl' }) with bucket := b' }, obs s' b')
+  | "loop.goheld", [id, next, fails, now, ops] => do
+    -- the application commits while the released loop waits for the write lock: the commit comes
+    -- before Lightning Stream's next transaction
+    let i ← st.getLoop id
+    let ops ← (listArg ops ',').mapM parseAppOp
+    let st1 := st.setLoop id { i with st := appCommit i.st ops }
+    opLoop "loop.go" [id, next, fails, now] st1
+  | "loop.clean", [id, now] => do
+    -- one run of the instance's real cleaner (cleanup enabled, both intervals zero: only the
+    -- order of times matters) on the shared bucket
+    let i ← st.getLoop id
+    let now ← natArg now
+    let (cst', out) := cleanRun i st.bucket now
+    let isDead (x : Blob) : Bool := out.deleted.contains s!"{x.inst}@{x.ts}"
+    let st' := st.setLoop id { i with cl := cst' }
+    let del := sortStrsL out.deleted
+    pure ({ st' with bucket := st.bucket.filter (fun x => !isDead x), grave := st.grave ++ st.bucket.filter isDead },
+          s!"ok deleted={if del.isEmpty then "-" else ",".intercalate del}")
   | "prop.loop.check", [id] => do
     let _ ← st.getLoop id
     pure (st, "ok")
